@@ -22,7 +22,7 @@
         fs on the in-memory image in ANY cache state and on the lazily read image in ANY coherent cache state
      select d p l : the elements of l at the positions listed in p (any order, repeats allowed) *)
 From Coq Require Import String ZArith List Bool.
-From HD Require Import Base.Val C05_Model C05_Proofs C05_Proofs_Encaps C05_Proofs_State C05_Proofs_Ext C05_Proofs_Lazy C05_Proofs_Order.
+From HD Require Import Base.Val C05_Model C05_Proofs C05_Proofs_Encaps C05_Proofs_State C05_Proofs_Ext C05_Proofs_Lazy C05_Proofs_Order C05_Proofs_Geom.
 Import ListNotations.
 Open Scope Z_scope.
 
@@ -488,3 +488,116 @@ Example C05_example_batch_order :
   batch_routes ord_c ord_pd [2; 4; 1] false (Err "IndexError"%string).
 Proof. exact example_batch_order. Qed.
 Print Assumptions C05_example_batch_order.
+
+(* ================================================================== *)
+(* extension: the lazily read image when its GEOMETRY is edited (state after the D118 fix); the        *)
+(* complete batch                                                                                       *)
+(* ================================================================== *)
+(* ANY history of reads with nothing cached (one frame, batch in any order, get_frames with the transforms
+   off, the complete batch frame_numbers=None through either, raw frame, decode of the raw bytes) and edits
+   of the description - Rows / Columns / NumberOfFrames / BitsAllocated included - on a lazily read image:
+   every answer is the one the in-memory image gives and the one the cache-free reference gives for the
+   current content.  (False before the D118 fix: read_frame_raw took the offset from the table computed
+   when the file was opened - found by this check, corpus/C05/lazy_geometry_stale_table.json.) *)
+Theorem C05_lazy_geometry_history : forall ops c pd,
+  ops_valid (c, pd) (ops_of_gops (c, pd) ops) ->
+  grun_ops (g_open c pd) ops = run_ops (Img c pd None) (ops_of_gops (c, pd) ops) /\
+  grun_ops (g_open c pd) ops = ref_ops (c, pd) (ops_of_gops (c, pd) ops).
+Proof. exact lazy_geometry_history. Qed.
+Print Assumptions C05_lazy_geometry_history.
+
+Theorem C05_lazy_geometry_history_from : forall ops st,
+  ops_valid (gcontent st) (ops_of_gops (gcontent st) ops) ->
+  grun_ops st ops = ref_ops (gcontent st) (ops_of_gops (gcontent st) ops).
+Proof. exact lazy_geometry_history_from. Qed.
+Print Assumptions C05_lazy_geometry_history_from.
+
+(* one read after ANY edit that leaves a valid image: the `answer` of C05_every_way_same, and the raw bytes
+   of the in-memory route *)
+Theorem C05_lazy_geometry_one : forall c0 c pd f ai, valid_c c -> enough (c_fmt c) pd ->
+  g_one (fst (gstep (g_open c0 pd) (GHeader c))) f ai = answer c pd f ai /\
+  g_raw (fst (gstep (g_open c0 pd) (GHeader c))) f ai = get_raw_frame false (c_fmt c) pd f ai.
+Proof. exact lazy_geometry_one. Qed.
+Print Assumptions C05_lazy_geometry_one.
+
+(* the reader's native entry point as modelled with the table lookup (before the fix) and with the computed
+   offset (now) is one function of (description, PixelData, index) - for EVERY index; on a valid image it
+   returns the bytes of the frame's range, never an error *)
+Theorem C05_reader_native_offset_computed : forall bits bs sg npx n pd i,
+  read_frame_raw_native bits npx n pd i = read_frame_raw_cur (Fmt bits bs sg npx n) pd i.
+Proof. exact read_frame_raw_native_cur. Qed.
+Print Assumptions C05_reader_native_offset_computed.
+
+Theorem C05_reader_native_valid_image : forall m pd i, valid_fmt m -> enough m pd -> 0 <= i < f_frames m ->
+  read_frame_raw_cur m pd i = Ok (raw_of_range (lazy_range (f_bits m) (f_npx m) i) pd).
+Proof. exact read_cur_ok. Qed.
+Print Assumptions C05_reader_native_valid_image.
+
+(* "in batches" = "from the whole pixel array" for the request every caller gets by default
+   (frame_numbers=None: range(1, n + 1) / range(0, n)): in-memory image in any cache state through
+   get_stored_frames and get_frames, lazily read image in any coherent cache state, lazily read image with
+   nothing cached *)
+Theorem C05_all_frames_default : forall c pd ai, valid_c c -> enough (c_fmt c) pd ->
+  let req := default_request (f_frames (c_fmt c)) ai in
+  (forall cache, snd (st_batch (Img c pd cache) req ai) = whole_array_c c pd) /\
+  (forall cache, snd (st_frames (Img c pd cache) req ai) = whole_array_c c pd) /\
+  (forall cache, lcoherent (LImg c pd cache) -> snd (lz_batch (LImg c pd cache) req ai) = whole_array_c c pd) /\
+  g_batch (GImg c pd) req ai = whole_array_c c pd /\ g_frames (GImg c pd) req ai = whole_array_c c pd.
+Proof. exact all_frames_default. Qed.
+Print Assumptions C05_all_frames_default.
+
+(* the witnesses of D118 on the fixed code: 3 frames of 4 x 2 pixels opened lazily, Rows := 2 -> frame 2 is
+   bytes 4..7; NumberOfFrames := 6 -> frame 4 is bytes 12..15; the table of the moment the file was opened
+   says 8 for index 1 and has no entry for index 3 *)
+Example C05_lazy_geometry_regression :
+  ops_valid (geo_c0, geo_pd) (ops_of_gops (geo_c0, geo_pd) [GHeader geo_c1; GOne 2 false; GHeader geo_c2; GOne 4 false]) /\
+  grun_ops (g_open geo_c0 geo_pd) [GHeader geo_c1; GOne 2 false; GHeader geo_c2; GOne 4 false] =
+    [VNone; VL [meta geo_c1; vz_list [4; 5; 6; 7]]; VNone; VL [meta geo_c2; vz_list [12; 13; 14; 15]]] /\
+  py_nth (native_table (c_fmt geo_c0)) 1 = Some 8 /\ py_nth (native_table (c_fmt geo_c0)) 3 = None.
+Proof. exact lazy_geometry_regression. Qed.
+Print Assumptions C05_lazy_geometry_regression.
+
+(* non-vacuity: Rows <-> Columns swapped and NumberOfFrames := 2, then the complete batch *)
+Example C05_example_lazy_geometry :
+  ops_valid (geo_c0, geo_pd) (ops_of_gops (geo_c0, geo_pd) [GOne 3 false; GHeader geo_c3; GOne 2 false; GBatch [2; 1] false; GOne 3 false; GFramesAll true]) /\
+  grun_ops (g_open geo_c0 geo_pd) [GOne 3 false; GHeader geo_c3; GOne 2 false; GBatch [2; 1] false; GOne 3 false; GFramesAll true] =
+    [VL [meta geo_c0; vz_list [16; 17; 18; 19; 20; 21; 22; 23]]; VNone;
+     VL [meta geo_c3; vz_list [8; 9; 10; 11; 12; 13; 14; 15]];
+     VL [meta geo_c3; vz_list2 [[8; 9; 10; 11; 12; 13; 14; 15]; [0; 1; 2; 3; 4; 5; 6; 7]]];
+     VErr "IndexError";
+     VL [VL [VS "int64"; vz_list [2; 4]]; vz_list2 [[0; 1; 2; 3; 4; 5; 6; 7]; [8; 9; 10; 11; 12; 13; 14; 15]]]].
+Proof. exact lazy_geometry_example. Qed.
+Print Assumptions C05_example_lazy_geometry.
+
+(* ---- lazily read ENCAPSULATED image, NumberOfFrames edited ---- *)
+(* for encapsulated data the reader keeps the offset table of the moment the file was opened.  NumberOfFrames
+   lowered (the last frames dropped): the numbers of the smaller image get the bytes of their frame exactly as
+   before, all others IndexError - for every table situation and fragmentation of C05_reader_bytes_end_to_end *)
+Theorem C05_lazy_encaps_frames_lowered : forall pfs bot eot n f ai, good_pframes pfs -> pfs <> [] ->
+  (forall f, In f pfs -> marked_pframe f) \/ (forall f, In f pfs -> exists p, f = [p]) ->
+  (eot = None \/ eot = Some (frame_offsets 0 (items_of pfs))) ->
+  (bot = [] \/ bot = frame_offsets 0 (items_of pfs)) ->
+  n <= zlen pfs ->
+  lazy_raw_enc_bytes_edited eot bot (concat pfs) (zlen pfs) n f ai =
+    bind (std_index n f ai) (fun i => Ok (concat (nth (Z.to_nat i) pfs []))).
+Proof. exact lazy_raw_enc_lowered. Qed.
+Print Assumptions C05_lazy_encaps_frames_lowered.
+
+(* NumberOfFrames raised: an index inside the edited image for which the table has no entry is refused
+   (IndexError of the list lookup), never answered with the bytes of another frame - any stream, any table *)
+Theorem C05_lazy_encaps_frames_raised : forall eot bot pls n0 n t i,
+  offset_table eot bot (map item_of pls) n0 = Ok t -> zlen t <= i < n ->
+  lazy_raw_enc_bytes_edited eot bot pls n0 n i true = Err "IndexError"%string.
+Proof. exact lazy_raw_enc_raised. Qed.
+Print Assumptions C05_lazy_encaps_frames_raised.
+
+(* ---- ANY PixelData length: answered iff the frame lies inside the data ---- *)
+(* get_stored_frame on the lazily read image for ANY description and ANY PixelData length - a description
+   edited beyond what the file holds included: frame number f is answered iff it is a number of the image
+   AND the bytes of that frame lie inside PixelData, and then with exactly the values those bytes say; in
+   every other case the answer is an error, never a partial, shifted or wrapped frame *)
+Theorem C05_lazy_frame_answered_iff : forall c pd f ai a, valid_c c ->
+  (g_one (GImg c pd) f ai = Ok a <->
+   exists i, std_index (f_frames (c_fmt c)) f ai = Ok i /\ frame_inside (c_fmt c) pd i /\ a = spec_frame_c c pd i).
+Proof. exact lazy_frame_answered_iff. Qed.
+Print Assumptions C05_lazy_frame_answered_iff.
